@@ -16,8 +16,8 @@ CHECKS['C12'] = dict(
    technique='Lean 4 proof (list induction, monotonicity of traversability) + differential correspondence',
    design='C12')
 CHECKS['C09'] = dict(
-   text='Theorems (Props/C09.lean over the state machine Model/AGS.lean): the structural invariant Consistent (children/parents inside the graph and mirrored with multiplicity, id/attacker indexes exact, name index exact for distinct full names, attacker/node references inside the graph) holds initially and is preserved by add_node, link, remove_node, add/remove_attacker, compromise/undo, attach, label writes and prune, hence after every finite history (reachable_consistent); lookups return exactly the present nodes; a removed node leaves no trace. Tied to attackgraph.py/node.py/attacker.py by random operation histories run on the real objects and the model, with a direct consistency checker on the real objects after every step.',
-   note='operations receive handles the API accepts (live nodes/attackers, existing node ids) or explicitly rejected duplicate ids; hand-added nodes have distinct full names; regenerate/deepcopy/save-load sections are correspondence-only so far',
+   text='Theorems (Props/C09.lean over the state machine Model/AGS.lean): the structural invariant Consistent (children/parents inside the graph and mirrored with multiplicity, id/attacker indexes exact, name index exact for distinct full names, attacker/node references inside the graph) holds initially and is preserved by add_node, link, remove_node, add/remove_attacker, add_node / add_attacker of an object that is already part of the graph (rejected: add_same_object_twice_rejected), compromise/undo, attach, label writes and prune, hence after every finite history (reachable_consistent); a rejected add_attacker changes nothing (rejected_add_attacker_changes_nothing; the pre-fix order of effects is refuted by pre_fix_add_attacker_leaves_stray_attacker); lookups return exactly the present nodes; a removed node leaves no trace. Tied to attackgraph.py/node.py/attacker.py by random operation histories run on the real objects and the model, with a direct consistency checker on the real objects after every step.',
+   note='operations receive handles the API accepts (live nodes/attackers, existing node ids) or calls that must be rejected and change nothing (duplicate ids, add_attacker with an unknown node id after valid ones or an id in use with reached steps, add_node / add_attacker of an object already in the graph); hand-added nodes have distinct full names; regenerate/deepcopy/save-load sections are correspondence-only so far',
    technique='Lean 4 proof (invariant preserved by each operation, induction over histories) + differential correspondence on operation histories',
    design='C09')
 CHECKS['C11'] = dict(
